@@ -82,6 +82,8 @@ pub struct Pipe {
     pub read_gated: bool,
     pub read_calls: u64,
     pub read_fault: Option<(u64, io::ErrorKind)>,
+    /// faults keep firing on every later call of the same direction (a transport that stays broken)
+    pub fault_sticky: bool,
     /// EOF injected once the server has read this many bytes
     pub eof_at: Option<usize>,
     // server -> client
@@ -104,6 +106,8 @@ pub struct Pipe {
     pub pending_writes: u64,
     /// transport calls made after a terminal result (EOF / injected error) was returned
     pub calls_after_terminal: u64,
+    /// how often a sticky fault has fired (a task that retries a permanently failing call forever spins)
+    pub sticky_fault_hits: u64,
     pub terminal_returned: bool,
 }
 
@@ -122,6 +126,7 @@ impl Pipe {
             read_gated: false,
             read_calls: 0,
             read_fault: None,
+            fault_sticky: false,
             eof_at: None,
             outbox: Vec::new(),
             write_waker: None,
@@ -140,6 +145,7 @@ impl Pipe {
             pending_writes: 0,
             calls_after_terminal: 0,
             terminal_returned: false,
+            sticky_fault_hits: 0,
         }))
     }
 
@@ -219,8 +225,13 @@ impl AsyncRead for Reader {
         p.note_call(false);
         if let Some((k, kind)) = p.read_fault {
             if p.read_calls >= k {
-                p.read_fault = None;
-                // (one-shot: later reads succeed again, so continuing to read is legitimate)
+                if !p.fault_sticky {
+                    // (one-shot: later reads succeed again, so continuing to read is legitimate)
+                    p.read_fault = None;
+                } else {
+                    p.sticky_fault_hits += 1;
+                    assert!(p.sticky_fault_hits < 2000, "spin: a permanently failing transport read was retried more than 2000 times");
+                }
                 p.ev(Ev::ReadErr);
                 return Poll::Ready(Err(kind.into()));
             }
@@ -270,9 +281,16 @@ impl Writer {
         p.note_call(true);
         if let Some((k, f)) = p.write_fault {
             if p.write_calls >= k {
-                p.write_fault = None;
-                let at = p.outbox.len();
-                p.write_fault_fired_at = Some(at);
+                if !p.fault_sticky {
+                    p.write_fault = None;
+                } else {
+                    p.sticky_fault_hits += 1;
+                    assert!(p.sticky_fault_hits < 2000, "spin: a permanently failing transport write was retried more than 2000 times");
+                }
+                if p.write_fault_fired_at.is_none() {
+                    let at = p.outbox.len();
+                    p.write_fault_fired_at = Some(at);
+                }
                 return Ok(match f {
                     WriteFault::Err(kind) => {
                         p.ev(Ev::WriteErr);
